@@ -20,10 +20,11 @@ type Profile struct {
 	OpenQ        bool  // keep queries open across operations
 	MaxOpenQ     int
 	NoFillerBias bool
-	RelBias      int  // percent chance to add a relation component to ID-based creations/additions
-	Burst        bool // open bursts of queries up to the limit of 64
-	ForceReset   bool // one Reset is forced in the middle of the case; the first prefix observer listens to OnRemoveRelations
-	ObsPrefix    int  // observers created (and mostly registered) at the start of a case
+	RelBias      int    // percent chance to add a relation component to ID-based creations/additions
+	Burst        bool   // open bursts of queries up to the limit of 64
+	FinalOp      string // extra final operation ("roundtrip")
+	ForceReset   bool   // one Reset is forced in the middle of the case; the first prefix observer listens to OnRemoveRelations
+	ObsPrefix    int    // observers created (and mostly registered) at the start of a case
 }
 
 // Gen draws operations given the model state.
